@@ -52,6 +52,8 @@ type c19Case struct {
 	lean  bool // schema inside the Lean fragment
 	known *schema.ImmutableState
 	noSync bool // probes of the stale-snapshot findings
+	dense  bool // case with a composite index for sure and bulk batches of documents over small value domains (c19_ixq.go)
+	wantComposite bool
 	pf    *c19PF // document proofs: accumulated hashes learnt from the server's honest answers (c19_forge.go)
 }
 
@@ -322,10 +324,24 @@ func (cs *c19Case) genSchema() {
 	cs.T.Schema.Fields = append([]c19Field{}, fields...)
 	// indexes of c
 	ni := rng.Intn(4)
+	if cs.dense {
+		// a composite index for sure, first in creation order or not
+		cs.wantComposite = true
+		for try := 0; try < 8 && len(cs.C.Indexes) == 0; try++ {
+			if ix := cs.genIndex(); ix != nil && len(ix.Fields) > 1 {
+				cs.C.Indexes = append(cs.C.Indexes, *ix)
+			}
+		}
+		cs.wantComposite = false
+	}
 	for i := 0; i < ni; i++ {
 		ix := cs.genIndex()
 		if ix != nil {
-			cs.C.Indexes = append(cs.C.Indexes, *ix)
+			if rng.Bool() {
+				cs.C.Indexes = append(cs.C.Indexes, *ix)
+			} else {
+				cs.C.Indexes = append([]c19Index{*ix}, cs.C.Indexes...)
+			}
 		}
 	}
 }
@@ -344,9 +360,28 @@ func (cs *c19Case) genIndex() *c19Index {
 	fs := cs.C.Schema.Fields
 	f1 := fs[rng.Intn(len(fs))]
 	ix := &c19Index{Fields: []string{f1.Name}}
-	if rng.Chance(30) {
-		f2 := fs[rng.Intn(len(fs))]
-		if f2.Name != f1.Name && !(f1.Type == protomodel.FieldType_STRING && f2.Type == protomodel.FieldType_STRING) {
+	if rng.Chance(45) || cs.wantComposite {
+		// composite: two fields, sometimes three; at most one STRING field (two VARCHAR[512] exceed the key length)
+		nstr := 0
+		if f1.Type == protomodel.FieldType_STRING {
+			nstr = 1
+		}
+		want := 2
+		if rng.Chance(20) {
+			want = 3
+		}
+		for try := 0; try < 6 && len(ix.Fields) < want; try++ {
+			f2 := fs[rng.Intn(len(fs))]
+			dup := false
+			for _, n := range ix.Fields {
+				dup = dup || n == f2.Name
+			}
+			if dup || (f2.Type == protomodel.FieldType_STRING && nstr > 0) {
+				continue
+			}
+			if f2.Type == protomodel.FieldType_STRING {
+				nstr++
+			}
 			ix.Fields = append(ix.Fields, f2.Name)
 		}
 	}
@@ -361,6 +396,9 @@ func (cs *c19Case) genIndex() *c19Index {
 		}
 	}
 	ix.Unique = rng.Chance(30)
+	if cs.wantComposite && len(ix.Fields) > 1 {
+		ix.Unique = rng.Chance(10)
+	}
 	return ix
 }
 
@@ -520,6 +558,12 @@ func (cs *c19Case) create() error {
 		}
 	}
 	cs.r.Count("case." + cs.api.Stage())
+	if cs.dense {
+		cs.r.Count("case.dense")
+	}
+	for _, ix := range cs.C.Indexes {
+		cs.r.Count(fmt.Sprintf("case.index.fields-%d", len(ix.Fields)))
+	}
 	if cs.lean {
 		cs.r.Count("case.in-lean-fragment")
 	}
@@ -791,6 +835,11 @@ func (cs *c19Case) opInsert() {
 			cs.r.Count("doc.copy-of-existing")
 		}
 	}
+	cs.insertDocs(docs)
+}
+
+// the same batch into the indexed collection and into its twin
+func (cs *c19Case) insertDocs(docs []*structpb.Struct) {
 	before := len(cs.C.Docs)
 	okC, gotC := cs.insertInto(cs.C, docs)
 	if !okC && gotC == "err:conflict" {
@@ -873,11 +922,46 @@ func (cs *c19Case) expect(c *c19Coll, q *protomodel.Query) *c19Expect {
 				names = append(names, qk.n)
 			}
 		}
-		// several quirks at once: the signature names the first; none alone: "combined" (not a known class)
+		// several quirks at once: the signature names the first.  None alone — a document is kept by one OR group
+		// through one quirk and by another group through another quirk, so that dropping either quirk alone changes
+		// nothing: the smallest set of quirks whose removal changes the result is looked for, its first member names
+		// the signature (impl and intended differ in nothing but these quirks, so some set always explains it)
 		if len(names) > 0 {
 			ex.quirks = names[0]
 		} else {
 			ex.quirks = "combined"
+			type qn struct {
+				q c19Q
+				n string
+			}
+			all := []qn{{qIntWrap, "integer-out-of-range"}, {qLikeByte, "like-non-ascii-pattern"}, {qLikeNL, "like-newline"}, {qStaleRow, "field-added-after-insert"}}
+		search:
+			for size := 2; size <= len(all); size++ {
+				for mask := 1; mask < 1<<len(all); mask++ {
+					var drop c19Q
+					first, n := "", 0
+					for i, x := range all {
+						if mask&(1<<i) != 0 {
+							drop |= x.q
+							n++
+							if first == "" {
+								first = x.n
+							}
+						}
+					}
+					if n != size {
+						continue
+					}
+					cqk, e := c19Compile(&c.Schema, q, qAll&^drop)
+					if e != "" {
+						continue
+					}
+					if !c19SameSet(c19IDs(c.Select(cqk, qAll&^drop)), c19IDs(ex.impl)) {
+						ex.quirks = first
+						break search
+					}
+				}
+			}
 		}
 	}
 	return ex
@@ -1020,14 +1104,43 @@ func (cs *c19Case) checkResult(c *c19Coll, q *protomodel.Query, ex *c19Expect, o
 		if len(res.ids) > wantN {
 			sig = "C19:search:limit-exceeded"
 		}
-		cs.fail(sig+":page-size", fmt.Sprintf("%s %s: %d documents returned, expected %d (matches %d)", what, qs, len(res.ids), wantN, total))
+		var exp []string
+		for i, m := range ex.impl {
+			if i >= 12 {
+				exp = append(exp, "…")
+				break
+			}
+			exp = append(exp, fmt.Sprintf("%s%v", m.D.ID, m.Row))
+		}
+		if len(res.ids) < wantN {
+			// the ±0 defect of an index on a DOUBLE field (finding 6) under a LIMIT: the page is short by exactly the
+			// matches whose indexed field holds the zero of the other sign
+			rest := 0
+			for _, m := range ex.impl {
+				if seen[m.D.ID] || !cs.negzeroExplains(c, ex, []string{m.D.ID}) {
+					rest++
+				}
+			}
+			w := rest - offset
+			if w < 0 {
+				w = 0
+			}
+			if limit > 0 && w > limit {
+				w = limit
+			}
+			if rest < total && w == len(res.ids) {
+				cs.fail("C19:search:missing-match:negzero-index", fmt.Sprintf("%s %s: %d documents returned %v, expected %d (matches %d: %v): the page is short by the matches whose indexed DOUBLE field holds the zero of the other sign; indexes %v", what, qs, len(res.ids), res.ids, wantN, total, exp, c.Indexes))
+				return false
+			}
+		}
+		cs.fail(sig+":page-size", fmt.Sprintf("%s %s: %d documents returned %v, expected %d (matches %d: %v); indexes %v", what, qs, len(res.ids), res.ids, wantN, total, exp, c.Indexes))
 		ok = false
 	}
 	// order
 	if ok && len(q.OrderBy) > 0 {
 		for i := 1; i < len(res.ids); i++ {
 			if ex.cq.OrderCmp(byID[res.ids[i-1]].Row, byID[res.ids[i]].Row) > 0 {
-				cs.fail("C19:search:order-wrong", fmt.Sprintf("%s %s: %s (%v) returned before %s (%v)", what, qs, res.ids[i-1], byID[res.ids[i-1]].Row, res.ids[i], byID[res.ids[i]].Row))
+				cs.fail("C19:search:order-wrong"+cs.negzeroOrderCause(c, q, ex), fmt.Sprintf("%s %s: %s (%v) returned before %s (%v); indexes %v", what, qs, res.ids[i-1], byID[res.ids[i-1]].Row, res.ids[i], byID[res.ids[i]].Row, c.Indexes))
 				ok = false
 				break
 			}
@@ -1036,7 +1149,7 @@ func (cs *c19Case) checkResult(c *c19Coll, q *protomodel.Query, ex *c19Expect, o
 		if ok {
 			for i, id := range res.ids {
 				if offset+i < len(ex.impl) && ex.cq.OrderCmp(byID[id].Row, ex.impl[offset+i].Row) != 0 {
-					cs.fail("C19:search:order-wrong:page-content", fmt.Sprintf("%s %s: position %d holds %s, whose sort key differs from the %d-th match %s", what, qs, i, id, offset+i, ex.impl[offset+i].D.ID))
+					cs.fail("C19:search:order-wrong:page-content"+cs.negzeroOrderCause(c, q, ex), fmt.Sprintf("%s %s: position %d holds %s, whose sort key differs from the %d-th match %s; indexes %v", what, qs, i, id, offset+i, ex.impl[offset+i].D.ID, c.Indexes))
 					ok = false
 					break
 				}
@@ -1153,11 +1266,20 @@ func (cs *c19Case) checkQuery(qc *protomodel.Query) {
 		}
 		if res.class != "ok" {
 			cs.r.OracleChecks++
-			cs.fail("C19:search:error-class-differs", fmt.Sprintf("%s: engine %s (%v), expected ok with %d matches", c19QueryString(q), res.class, res.err, len(ex.impl)))
+			cause := cs.longConstCause(c, q, res.class)
+			cs.fail("C19:search:error-class-differs"+cause, fmt.Sprintf("%s: engine %s (%v), expected ok with %d matches; indexes %v", c19QueryString(q), res.class, res.err, len(ex.impl), c.Indexes))
+			if cause != "" && cs.inLeanFragment(ex) {
+				// the planner model meets the same refusal when it encodes the bound as a key of the scanned index
+				cs.corr(fmt.Sprintf("c19 ixsearch %s %s %s %s 0 %d", c.Name, c19IndexesTok(c.Indexes), qt, ot, q.Limit), "err:eval")
+			}
 			continue
 		}
 		if ex.quirks != "" {
 			cs.r.Count("query.quirk-visible." + ex.quirks)
+		}
+		if c == cs.C {
+			cs.countShape(c, q, ex)
+			cs.countData(c)
 		}
 		if len(q.OrderBy) > 0 {
 			cs.r.Count("query.ordered")
@@ -1174,6 +1296,7 @@ func (cs *c19Case) checkQuery(qc *protomodel.Query) {
 			if canon, ok := cs.leanCanon(c, q, ex, 0, res.ids); ok {
 				cs.corr(fmt.Sprintf("c19 search %s %s %s 0 %d", c.Name, qt, ot, q.Limit), canon)
 			}
+			cs.ixCorr(c, q, ex, qt, ot, 0, res.ids)
 		}
 		// (c) count
 		cnt, err := cs.api.Count(q)
@@ -1220,6 +1343,7 @@ func (cs *c19Case) checkQuery(qc *protomodel.Query) {
 					if canon, ok := cs.leanCanon(c, qp, ex, off, pr.ids); ok {
 						cs.corr(fmt.Sprintf("c19 search %s %s %s %d %d", c.Name, qt, ot, off, qp.Limit), canon)
 					}
+					cs.ixCorr(c, qp, ex, qt, ot, off, pr.ids)
 				}
 				if len(pr.ids) < ps {
 					break
@@ -1471,6 +1595,10 @@ func (cs *c19Case) opReplace() {
 		return
 	}
 	q := cs.genQuery(cs.C, true)
+	if rng.Chance(35) {
+		q = cs.genIdxRelQuery(cs.C)
+		cs.r.Count("ixrel.replace")
+	}
 	newDoc := cs.genDoc(true)
 	byID := rng.Chance(55)
 	var target *c19Doc
@@ -1569,6 +1697,7 @@ func (cs *c19Case) replaceIn(c *c19Coll, q *protomodel.Query, given *structpb.St
 	var sel []c19Match
 	var rows map[string]c19Row
 	var newDocs map[string]*structpb.Struct
+	negzero := false // the expected uniqueness conflict involves a zero of a DOUBLE field (finding 6: the index keys of ±0 differ)
 	if want == "ok" && ex.cq.IllTyped {
 		cs.r.Count("replace.skipped-illtyped")
 		return false
@@ -1606,8 +1735,9 @@ func (cs *c19Case) replaceIn(c *c19Coll, q *protomodel.Query, given *structpb.St
 			}
 		}
 		if want == "ok" && len(sel) > 0 {
-			if cf, _ := c.wouldConflict(rows); cf {
+			if cf, nz := c.wouldConflict(rows); cf {
 				want = "err:conflict"
+				negzero = nz
 			}
 		}
 	}
@@ -1656,14 +1786,23 @@ func (cs *c19Case) replaceIn(c *c19Coll, q *protomodel.Query, given *structpb.St
 		}
 		if want == "err:conflict" && got == "ok" {
 			sig := "C19:unique:duplicate-admitted"
-			if c.touchesReleasedValue(cs.rowsOf(c, []*structpb.Struct{nd})) {
+			if negzero {
+				sig += ":negzero" // as in insertInto
+			} else if c.touchesReleasedValue(cs.rowsOf(c, []*structpb.Struct{nd})) {
 				sig += ":value-released-earlier"
 			}
 			cs.failUnique(c, sig, fmt.Sprintf("collection %s indexes %v: replace %s with %s accepted although it makes two documents share a unique value", c.Name, c.Indexes, c19QueryString(q), c19DocTok(nd)))
 		} else if c.UniqueBroken && (want == "err:conflict" || got == "err:conflict") {
 			cs.r.Count("unique.follow-up-after-reported-misbehaviour")
 		} else {
-			cs.fail("C19:replace:outcome-differs", fmt.Sprintf("%s doc=%s: %s (%v), expected %s", c19QueryString(q), c19DocTok(nd), got, err, want))
+			cause := ""
+			if want == "ok" || want == "err:conflict" {
+				cause = cs.longConstCause(c, q, got)
+			}
+			cs.fail("C19:replace:outcome-differs"+cause, fmt.Sprintf("%s doc=%s: %s (%v), expected %s; indexes %v", c19QueryString(q), c19DocTok(nd), got, err, want, c.Indexes))
+			if cause != "" {
+				return true // nothing was written: the twin is skipped as after a uniqueness conflict
+			}
 		}
 		cs.reconcile(c)
 		return false
@@ -1717,7 +1856,18 @@ func (cs *c19Case) opDelete() {
 		return
 	}
 	q := cs.genQuery(cs.C, true)
-	if cs.rng.Chance(50) {
+	viaIndex := false
+	if cs.rng.Chance(35) {
+		// through an index: only when the filter selects a small part of the collection
+		qi := cs.genIdxRelQuery(cs.C)
+		if ex := cs.expect(cs.C, qi); ex.class == "ok" && len(ex.impl) > 0 && len(ex.impl) <= 2+cs.liveCount(cs.C)/4 {
+			q = qi
+			viaIndex = true
+			cs.r.Count("ixrel.delete")
+		}
+	}
+	if viaIndex {
+	} else if cs.rng.Chance(50) {
 		// a single document by id
 		d := cs.C.Docs[cs.rng.Intn(len(cs.C.Docs))]
 		q.Expressions = []*protomodel.QueryExpression{{FieldComparisons: []*protomodel.FieldComparison{
@@ -1739,11 +1889,13 @@ func (cs *c19Case) opDelete() {
 				}
 			}
 		}
-		cs.deleteIn(c, qq)
+		if cs.deleteIn(c, qq) {
+			break
+		}
 	}
 }
 
-func (cs *c19Case) deleteIn(c *c19Coll, q *protomodel.Query) {
+func (cs *c19Case) deleteIn(c *c19Coll, q *protomodel.Query) (skipTwin bool) {
 	cs.determinize(c, q)
 	ex := cs.expect(c, q)
 	if ex.class == "ok" && ex.cq.IllTyped {
@@ -1770,9 +1922,16 @@ func (cs *c19Case) deleteIn(c *c19Coll, q *protomodel.Query) {
 	qt, ot := c19QueryTok(q)
 	leanOp := fmt.Sprintf("c19 delq %s %s %s %d", c.Name, qt, ot, q.Limit)
 	if got != ex.class {
-		cs.fail("C19:delete:outcome-differs", fmt.Sprintf("%s: %s (%v), expected %s", c19QueryString(q), got, err, ex.class))
+		cause := ""
+		if ex.class == "ok" {
+			cause = cs.longConstCause(c, q, got)
+		}
+		cs.fail("C19:delete:outcome-differs"+cause, fmt.Sprintf("%s: %s (%v), expected %s; indexes %v", c19QueryString(q), got, err, ex.class, c.Indexes))
+		if cause != "" {
+			return true // nothing was deleted: the twin is skipped
+		}
 		cs.reconcile(c)
-		return
+		return false
 	}
 	if got != "ok" {
 		if cs.lean && !c19HasLike(q) {
@@ -1824,6 +1983,7 @@ func (cs *c19Case) deleteIn(c *c19Coll, q *protomodel.Query) {
 		cs.lean = false
 		cs.twin = false
 	}
+	return false
 }
 
 // adopt the engine's view of the collection after a reported disagreement (audit of every document)
@@ -1999,8 +2159,11 @@ func (cs *c19Case) sweep(tag string) {
 	}
 	cs.checkSchema()
 	cs.checkQuery(&protomodel.Query{CollectionName: "c"})
-	for i := 0; i < 4; i++ {
+	for i := 0; i < 3; i++ {
 		cs.opSearch()
+	}
+	for i := 0; i < 4; i++ {
+		cs.opIxSearch()
 	}
 	for i := 0; i < 3; i++ {
 		cs.opGet()
@@ -2031,7 +2194,7 @@ func c19RunCase(r *hx.Result, rng *hx.Rng, stage string, nops int) (err error) {
 		return err
 	}
 	defer api.Close()
-	cs := &c19Case{r: r, rng: rng, api: api, id: r.NextCase(), pair: map[string]string{}, twin: true,
+	cs := &c19Case{r: r, rng: rng, api: api, id: r.NextCase(), pair: map[string]string{}, twin: true, dense: rng.Chance(50),
 		C: &c19Coll{Name: "c", ByID: map[string]*c19Doc{}}, T: &c19Coll{Name: "t", ByID: map[string]*c19Doc{}}}
 	defer func() {
 		if e := recover(); e != nil {
@@ -2048,12 +2211,23 @@ func c19RunCase(r *hx.Result, rng *hx.Rng, stage string, nops int) (err error) {
 		f()
 		c19Timing[name] += time.Since(t0)
 	}
+	if cs.dense {
+		for i := 0; i < 3; i++ {
+			timed("insert", cs.opBulk)
+		}
+	}
 	for i := 0; i < nops; i++ {
 		switch p := rng.Intn(100); {
-		case p < 30:
-			timed("insert", cs.opInsert)
-		case p < 55:
+		case p < 24:
+			if cs.dense && rng.Chance(35) {
+				timed("insert", cs.opBulk)
+			} else {
+				timed("insert", cs.opInsert)
+			}
+		case p < 40:
 			timed("search", cs.opSearch)
+		case p < 57:
+			timed("search-index-relative", cs.opIxSearch)
 		case p < 63:
 			timed("get", cs.opGet)
 		case p < 75:
@@ -2132,6 +2306,7 @@ func runC19(r *hx.Result, rng *hx.Rng, thorough bool, replay string) error {
 		}
 	}
 	c19Probes(r)
+	c19IxProbes(r)
 	tm := map[string]string{}
 	for k, v := range c19Timing {
 		tm[k] = v.Round(time.Millisecond).String()
